@@ -263,6 +263,17 @@ func c11ExecOnce(ops []string) (outs []string, stalled bool) {
 			outs = append(outs, "bad-op")
 			continue
 		}
+		if f[0] == "createonly" {
+			// the crash window between remove and rename, restarted through serf.Create: only <snapshot>.compact exists
+			if len(f) != 2 || unhex(f[1]) == nil {
+				outs = append(outs, "bad-op")
+				continue
+			}
+			serf.VerifSetFSHook(nil)
+			outs = append(outs, c11CreateOnly(unhex(f[1])))
+			serf.VerifSetFSHook(c.hook)
+			continue
+		}
 		if f[0] == "crashall" {
 			if r == nil {
 				outs = append(outs, "bad-op")
@@ -295,6 +306,33 @@ func c11ExecOnce(ops []string) (outs []string, stalled bool) {
 	return outs, stalled
 }
 
+// c11CreateOnly starts a real node (serf.Create) twice on the same snapshot bytes: (a) the bytes are only in
+// <snapshot>.compact (what a crash between the remove and the rename of a compaction leaves), (b) the bytes are the
+// snapshot itself. Reported: the clocks each node restored.
+func c11CreateOnly(content []byte) string {
+	one := func(name string) string {
+		dir, err := os.MkdirTemp("", "verif-c11c-")
+		if err != nil {
+			return "env-error"
+		}
+		defer os.RemoveAll(dir)
+		if os.WriteFile(dir+"/"+name, content, 0644) != nil {
+			return "env-error"
+		}
+		nd, err := c14Node(dir, 4, 4)
+		if err != nil {
+			return "env-error"
+		}
+		defer nd.close()
+		return fmt.Sprintf("%d/%d/%d", nd.stat("member_time"), nd.stat("event_time"), nd.stat("query_time"))
+	}
+	a, b := one("snap.compact"), one("snap")
+	if a == "env-error" || b == "env-error" {
+		return "env-error"
+	}
+	return "a=" + a + " b=" + b
+}
+
 func c11Exec(ops []string) []string {
 	var outs []string
 	for try := 0; try < 4; try++ {
@@ -315,6 +353,14 @@ func c11Gen(rng *rand.Rand, tier string) []Case {
 	// every user event compacts (nothing alive, threshold 0): the compaction must write the clock just recorded
 	out = append(out, Case{ID: "evclock", Tags: []string{"fixed"}, Nontrivial: true, Ops: []string{
 		"new sync 0 0", "user 5", "user 7", "query 3", "shutdown 1", "crashall"}})
+	// restart through serf.Create when only <snapshot>.compact exists (crash between remove and rename)
+	for i, content := range []string{
+		"alive: n1 10.0.0.1:7946\nclock: 9\nevent-clock: 3\nquery-clock: 7\n",
+		"clock: 120\nevent-clock: 77\nquery-clock: 5\n",
+		"alive: n1 10.0.0.1:7946\nalive: n2 10.0.0.2:7946\nclock: 4\nevent-clock: 40\nquery-clock: 41\n"} {
+		out = append(out, Case{ID: fmt.Sprintf("createonly%d", i), Tags: []string{"fixed", "create-on-compact-only"}, Nontrivial: true,
+			Ops: []string{"createonly " + hexs(content)}})
+	}
 	n := 30
 	if tier == "thorough" {
 		n = 1500
@@ -349,7 +395,7 @@ func c11Gen(rng *rand.Rand, tier string) []Case {
 func init() {
 	register(&Prop{
 		ID: "C11",
-		Rule: "the real Snapshotter compiled through the file-system shim (overlay): lives of ≤10 events (joins incl. multi-member, leave/failed, user/query times, clock ticks, flush-interval elapsing, forced compactions) × thresholds {0,1,64,200,128KiB} × both flag settings; " +
+		Rule: "3 directed cases start a real node through serf.Create on a directory that holds the snapshot bytes only as <snapshot>.compact and on the same bytes as the snapshot (restored clocks must agree); the real Snapshotter compiled through the file-system shim (overlay): lives of ≤10 events (joins incl. multi-member, leave/failed, user/query times, clock ticks, flush-interval elapsing, forced compactions) × thresholds {0,1,64,200,128KiB} × both flag settings; " +
 			"the operation sequence of every op is compared with the model's; at EVERY operation index (and for writes to the snapshot file with the write cut after 1, len/2, len-1 bytes) the directory as it is on disk is copied and the real NewSnapshotter recovers from the copy; for cut writes also after one more life on the copy; " +
 			"non-trivial = the life contains a join and compacts (threshold ≤200 or forced); distinct = distinct op sequence",
 		Gen:  c11Gen,
